@@ -35,8 +35,9 @@ A == Nm("a")  B == Nm("b")  C == Nm("c")  O == Nm("out")
 ExprsSmall == { A, B, K("int:1") }
 Exprs == IF Full
          THEN { A, B, K("int:1"), Bin(A, "Add", B), Un("USub", A), Cl("max", <<A, B>>), Cl("min", <<A, K("int:1")>>),
-                Cl("max", <<Ls(<<A, B>>)>>), Cl("sum", <<Ls(<<A, B>>)>>), Ife(C, A, B), Un("USub", Cl("max", <<A, B>>)) }
-         ELSE { A, K("int:1"), Bin(A, "Add", B), Cl("max", <<A, B>>), Cl("min", <<Ls(<<A, B>>)>>), Ife(C, A, B), Un("USub", Cl("min", <<A, B>>)) }
+                Cl("max", <<Ls(<<A, B>>)>>), Cl("sum", <<Ls(<<A, B>>)>>), Ife(C, A, B), Un("USub", Cl("max", <<A, B>>)), Cl("sum", <<Ls(<<A, B>>), K("int:1")>>) }
+         ELSE { A, K("int:1"), Bin(A, "Add", B), Cl("max", <<A, B>>), Cl("min", <<Ls(<<A, B>>)>>), Ife(C, A, B), Un("USub", Cl("min", <<A, B>>)),
+                Cl("sum", <<Ls(<<A, B>>), K("int:1")>>) }     \* a reducer with a second positional argument: rejected by the rewrite
 Conds == IF Full
          THEN { C, Cmp(A, "Gt", B), Un("Not", C), Bo("And", <<C, Cmp(A, "Gt", K("int:0"))>>), Bo("Or", <<Cmp(A, "Gt", B), C>>),
                 Cl("any", <<Ls(<<C, Cmp(A, "Gt", B)>>)>>), Un("Not", Bo("And", <<C, Cmp(A, "Gt", B)>>)), Cl("all", <<Ls(<<C, Cmp(A, "Gt", K("int:0"))>>)>>),
